@@ -6,6 +6,7 @@ import (
 	"math"
 	"strings"
 	"time"
+	_ "time/tzdata"
 
 	"github.com/influxdata/influxql"
 
@@ -389,6 +390,9 @@ var c09instants = []c09instant{
 	{"2300-01-01T00:00:00Z", 2300, 1, 1, 0, 0, 0, 0, 0, true},
 	{"1600-01-01T00:00:00Z", 1600, 1, 1, 0, 0, 0, 0, 0, true},
 	{"2262-04-12T00:00:00Z", 2262, 4, 12, 0, 0, 0, 0, 0, true},
+	// the day before, and the day after, a daylight-saving transition of the last zone
+	{"2024-03-09 12:00:00", 2024, 3, 9, 12, 0, 0, 0, 0, false},
+	{"2024-11-04 00:30:00", 2024, 11, 4, 0, 30, 0, 0, 0, false},
 }
 
 func (t c09instant) far() bool {
@@ -410,8 +414,19 @@ func (t c09instant) tm(zone *time.Location) time.Time {
 }
 
 var c09now = time.Date(2010, 6, 15, 10, 30, 0, 7, time.UTC)
-var c09durs = []time.Duration{time.Hour, 0, 1, -90 * time.Minute, 400 * 24 * time.Hour}
-var c09zones = []*time.Location{nil, time.FixedZone("X", 5*3600+1800), time.FixedZone("Y", -8*3600)}
+var c09durs = []time.Duration{time.Hour, 0, 1, -90 * time.Minute, 400 * 24 * time.Hour, 24 * time.Hour, -7 * 24 * time.Hour, 100 * 24 * time.Hour}
+
+// (the last zone has daylight-saving transitions: a day there is not always 24 hours, a duration always is)
+var c09zones = []*time.Location{nil, time.FixedZone("X", 5*3600+1800), time.FixedZone("Y", -8*3600), c09dstZone()}
+
+func c09dstZone() *time.Location {
+	l, err := time.LoadLocation("America/Los_Angeles") // from the embedded time/tzdata
+	if err != nil {
+		panic("c09: no zone database: " + err.Error())
+	}
+	return l
+}
+
 var c09cmp = []influxql.Token{influxql.EQ, influxql.NEQ, influxql.LT, influxql.LTE, influxql.GT, influxql.GTE}
 
 func (t c09instant) expr() influxql.Expr {
